@@ -28,6 +28,17 @@ RULE = ('transmit side: boundary + seeded request headers (6-bit netfn, 2-bit LU
         'Rmcp.send_and_receive_raw over a fake socket intact (must be returned) and with EVERY single-byte corruption '
         '(255 x len, every wrapper byte included; thorough: more frames): the damaged frame must be rejected - no '
         'data, no CompletionCodeError / IndexError out of it.  '
+        'Response frames the library transmits: for boundary + seeded + directed (all 32 even netFn, all 16 LUN pairs, '
+        'sequence numbers 0/1/62/63) request headers x bodies (completion code + 0..64 data bytes) the real '
+        'IpmbHeaderRsp().from_req_header(request header) + encode_ipmb_msg - the request header set attribute by '
+        'attribute and decoded by IpmbHeaderReq(data=<request frame of the specification, Spec.Wire.mkRequest>) - is '
+        'compared with the Lean model (assignments of from_req_header / byte list of IpmbHeaderRsp.encode regenerated '
+        'from the AST) and judged against the response frame of the figure (Spec.Wire.mkReply; the real frame is read '
+        'back by Spec.Wire.parseRsp and given to the real rx_filter of that request); ONE IpmbHeaderRsp object '
+        're-used for several requests; IpmbHeaderRsp objects filled in by hand through encode() / encode_ipmb_msg; '
+        'out-of-range and odd-netFn request headers (tie only); Get Device ID requests with varied addresses, LUNs '
+        'and sequence numbers through the library\'s BMC emulation (pyipmi.emulation.handle_rmcp_ipmi_msg): the '
+        'header of the frame it transmits must be the response header to that request.  '
         'Distinct by (op, header, flags, bytes); non-trivial = non-empty payload / frame of >= 6 bytes.')
 ASSUMPTIONS = [
     'the arithmetic of checksum / IpmbHeaderReq.encode / IpmbHeaderRsp.decode and the checks list of rx_filter are '
@@ -48,6 +59,16 @@ ASSUMPTIONS += [
     'code with the witness of transport_corruption_asShipped_counterexample; the property is judged on the real code '
     'either way).  RMCP / session packing of the fake datagrams is not under test (authentication none); retry '
     'accounting is C04\'s (max_retries = 0: one frame, then silence)',
+]
+ASSUMPTIONS += [
+    '"every IPMB frame the library transmits" is read to include the response frames of the library\'s own BMC '
+    'emulation (pyipmi/emulation.py), built by IpmbHeaderRsp.from_req_header + IpmbHeaderRsp.encode + encode_ipmb_msg of '
+    'the anchored file; "what it was asked to carry" for a response is the figure\'s response to the request '
+    '(requester / responder address and LUN in their roles, netFn + 1, same sequence number and command, the body).  '
+    'Which state of from_req_header (as shipped / intended, Ipmb.fromReqTable) the tree has is probed with the witness of '
+    'response_frame_asShipped_counterexample and recorded; the correspondence uses the assignments read from the AST.  '
+    'The emulation is driven below its RMCP layer (handle_rmcp_ipmi_msg, IPMI v1.5 session header, authentication none); '
+    'its command handlers and the hand-patched invalid-command reply (_create_invalid_response) are not under test',
 ]
 TRUSTED = ['harness/translate/ipmb.py', 'harness/props/c03.py', 'harness/sim/transport04.py (fake UDP socket)']
 
@@ -546,6 +567,246 @@ def _run_encode_histories(ctx, rng, hdrs):
 
 
 # ---------------------------------------------------------------------------------------
+# response frames the library transmits (IpmbHeaderRsp.from_req_header / .encode + encode_ipmb_msg)
+# ---------------------------------------------------------------------------------------
+
+RSP_CLASSES = (('netfn', (2,)), ('addresses', (0, 3)), ('luns', (1, 4)), ('seq', (5,)), ('cmd', (6,)))
+W_REQ = (0x20, 0, 6, 0x81, 0, 1, 1)            # Props.C03.sReq: Get Device ID, rqSA 81h -> rsSA 20h, sequence number 1
+W_BODY = bytes([0, 0xaa, 0xbb])
+
+
+def _show(r):
+    return 'ok ' + lean.hexs(r[1]) if r[0] == 'ok' else r[0]
+
+
+def real_response(req, body, req_frame=None, rsp_obj=None):
+    """the frame the library builds to answer request `req` with `body`: from_req_header on a (fresh) IpmbHeaderRsp,
+    then encode_ipmb_msg.  `req_frame`: decode the request header from these bytes instead of setting attributes"""
+    from pyipmi.interfaces.ipmb import IpmbHeaderReq, IpmbHeaderRsp, encode_ipmb_msg
+
+    def f():
+        rh = IpmbHeaderReq(data=req_frame) if req_frame is not None else _mk_header(req)
+        h = rsp_obj if rsp_obj is not None else IpmbHeaderRsp()
+        h.from_req_header(rh)
+        return bytes(bytearray(encode_ipmb_msg(h, body)))
+    return _show(_outcome(f))
+
+
+def real_rsp_encode(vals, body):
+    """(IpmbHeaderRsp.encode(), encode_ipmb_msg(header, body)) of a response header object filled in by hand"""
+    from pyipmi.interfaces.ipmb import IpmbHeaderRsp, encode_ipmb_msg
+
+    def mk():
+        h = IpmbHeaderRsp()
+        for k, v in zip(FIELDS, vals):
+            setattr(h, k, v)
+        return h
+    return (_show(_outcome(lambda: bytes(bytearray(mk().encode())))),
+            _show(_outcome(lambda: bytes(bytearray(encode_ipmb_msg(mk(), body))))))
+
+
+_rvariant = []
+
+
+def response_variant(drv):
+    """which state of IpmbHeaderRsp.from_req_header the tree has: the witness of
+    Props.C03.response_frame_asShipped_counterexample"""
+    if not _rvariant:
+        real = real_response(W_REQ, W_BODY)
+        line = '%s %s' % (hs(W_REQ), lean.hexs(W_BODY))
+        _rvariant.append('asShipped' if real == drv.ask('rspframe a ' + line) else
+                         'intended' if real == drv.ask('rspframe i ' + line) else 'other')
+    return _rvariant[0]
+
+
+def judge_response_frame(ctx, drv, case, req, body, real, expected=None, what_built='IpmbHeaderRsp.from_req_header + encode_ipmb_msg'):
+    """`real`: the frame the library built to answer request `req` with `body`; judged against the figure"""
+    if expected is None:
+        expected = drv.ask('mkreply %s %s' % (hs(req), lean.hexs(body)))
+    if real == 'ok ' + expected:
+        return True
+    if not real.startswith('ok '):
+        ctx.violate('C03:response-frame:raises', '%s raises for an in-range request header' % what_built, case,
+                    expected='ok ' + expected, observed=real)
+        return False
+    fx = real[3:]
+    s1, s2 = drv.ask('sums ' + fx).split()
+    if s1 != '0' or s2 != '0':
+        which = 'header' if s1 != '0' else 'payload'
+        ctx.violate('C03:response-frame:%s-checksum' % which,
+                    'the %s bytes of the response frame built by %s do not sum to zero' % (which, what_built), case,
+                    expected='ok ' + expected, observed=real)
+        return False
+    want = (req[0], req[1], req[2] + 1, req[3], req[4], req[5], req[6])
+    parsed = drv.ask('parsersp ' + fx).split()
+    accepted = real_filter(req, DEFAULT_FLAGS, lean.unhex(fx))
+    note = '; rx_filter of that request says %s' % {'ok 1': 'True', 'ok 0': 'False'}.get(accepted, accepted)
+    if parsed[0] != 'some':
+        ctx.violate('C03:response-frame:length', 'the response frame built by %s is too short to be one%s' % (what_built, note),
+                    case, expected='ok ' + expected, observed=real)
+        return False
+    got = tuple(int(x) for x in parsed[1:8])
+    wrong = [FIELDS[i] for i in range(7) if got[i] != want[i]]
+    cls = [c for c, idx in RSP_CLASSES if any(got[i] != want[i] for i in idx)]
+    if not cls:
+        cls, wrong = ['data'], ['data']
+    ctx.violate('C03:response-frame:%s' % cls[0],
+                'the frame built to answer a request (%s) does not carry the fields of the response to it: wrong %s%s'
+                % (what_built, ', '.join(wrong), note), case,
+                expected='ok %s  (%s)' % (expected, dict(zip(FIELDS, want))),
+                observed='%s  (%s)' % (real, dict(zip(FIELDS, got))))
+    return False
+
+
+def judge_response(ctx, drv, req, body, via, model=None, expected=None, judge=True):
+    case = {'op': 'response', 'req': list(req), 'body': lean.hexs(body), 'via': via}
+    req_frame = None
+    if via == 'decode':
+        req_frame = lean.unhex(drv.ask('mkreq %s -' % hs(req)))
+        case['req_frame'] = lean.hexs(req_frame)
+    real = real_response(req, body, req_frame)
+    if model is not None and model != real and not (model.startswith('py:') and real.startswith('py:')):
+        ctx.disagree('from_req_header + encode_ipmb_msg', case, model, real)
+    if not judge:
+        return True
+    return judge_response_frame(ctx, drv, case, req, body, real, expected)
+
+
+def judge_rsp_encode(ctx, drv, vals, body, m_hdr=None, m_enc=None, expected=None):
+    """a response header object filled in by hand (netfn = the response's, odd): encode() / encode_ipmb_msg against
+    the figure's response to the request with netfn - 1"""
+    case = {'op': 'rsp-encode', 'hdr': list(vals), 'body': lean.hexs(body)}
+    r_hdr, r_enc = real_rsp_encode(vals, body)
+    if m_hdr is not None and m_hdr != r_hdr:
+        ctx.disagree('IpmbHeaderRsp.encode', case, m_hdr, r_hdr)
+    if m_enc is not None and m_enc != r_enc:
+        ctx.disagree('encode_ipmb_msg(IpmbHeaderRsp)', case, m_enc, r_enc)
+    if expected is None:
+        return True
+    req = vals[:2] + (vals[2] - 1,) + vals[3:]
+    ok = judge_response_frame(ctx, drv, case, req, body, r_enc, expected, 'IpmbHeaderRsp.encode + encode_ipmb_msg')
+    if ok and r_hdr != 'ok ' + expected[:12]:
+        ctx.violate('C03:response-frame:header-encode', 'IpmbHeaderRsp.encode() is not the first six bytes of the frame',
+                    case, expected=expected[:12], observed=r_hdr)
+        return False
+    return ok
+
+
+def _emulation():
+    import sys
+    import types
+    sys.modules.setdefault('yaml', types.ModuleType('yaml'))     # imported only to read an optional config file
+    import pyipmi.emulation as emu
+    return emu
+
+
+def real_emulation(req_frame):
+    """one IPMI-over-LAN request (session header: authentication none) through the library's BMC emulation, below its
+    RMCP layer -> the IPMB frame it transmits"""
+    emu = _emulation()
+    ctxt = emu.ConnectionContext(None, None, 'client')
+    sdu = T.rmcp_wrap(req_frame)[4:]
+    r = _outcome(lambda: bytes(bytearray(emu.handle_rmcp_ipmi_msg(ctxt, sdu))))
+    if r[0] != 'ok':
+        return r[0]
+    pdu = r[1]
+    if len(pdu) < 10 or pdu[0] != 0 or pdu[9] != len(pdu) - 10:
+        return 'py:unexpected-session-header:' + lean.hexs(pdu[:10])
+    return 'ok ' + lean.hexs(pdu[10:])
+
+
+def judge_emulation(ctx, drv, req):
+    req_frame = lean.unhex(drv.ask('mkreq %s -' % hs(req)))
+    case = {'op': 'emulation', 'req': list(req), 'req_frame': lean.hexs(req_frame)}
+    real = real_emulation(req_frame)
+    if not real.startswith('ok ') or len(real) < 3 + 16:
+        ctx.violate('C03:response-frame:emulation-raises', 'the BMC emulation does not answer a Get Device ID request',
+                    case, expected='a response frame', observed=real)
+        return False
+    # the body is the emulation's business (its Get Device ID handler); the frame around it is judged
+    body = lean.unhex(real[3:])[6:-1]
+    return judge_response_frame(ctx, drv, case, req, body, real, None,
+                                'pyipmi.emulation: IpmbHeaderRsp.from_req_header + encode_ipmb_msg')
+
+
+def gen_rsp_body(rng, n=None):
+    n = rng.choice((0, 0, 1, 3, 16, 64, rng.randrange(0, 65))) if n is None else n
+    return bytes([rng.choice((0, 0, 0xc1, 0xff, rng.randrange(256)))]) + gen_payload(rng, n)
+
+
+def _run_response(ctx, drv, rng, n_req, n_emulation):
+    ctx.extra['from_req_header_variant'] = response_variant(drv)
+    reqs = gen_headers(rng, n_req, request=True)
+    reqs.insert(0, W_REQ)
+    # directed: every even netFn, every pair of LUNs, the corners of the sequence number
+    for netfn in range(0, 64, 2):
+        reqs.append((0x20, rng.randrange(4), netfn, 0x81, rng.randrange(4), rng.randrange(64), rng.randrange(256)))
+    for rs_lun in range(4):
+        for rq_lun in range(4):
+            reqs.append((rng.choice((0x20, 0x72, 0x82)), rs_lun, rng.randrange(32) * 2, rng.choice((0x81, 0x20)), rq_lun,
+                         rng.choice((0, 1, 62, 63)), rng.choice((1, 0x34, 0xff))))
+    cases = []
+    for i, req in enumerate(reqs):
+        cases.append((req, W_BODY if i == 0 else gen_rsp_body(rng), 'attrs' if i % 2 == 0 else 'decode', True))
+        if i < 40:
+            cases.append((req, gen_rsp_body(rng), 'decode' if i % 2 == 0 else 'attrs', True))
+    # outside the quantifier (tie only): odd netFn, one field beyond its width
+    for h in gen_headers(rng, max(8, n_req // 6)):
+        cases.append((h[:2] + (h[2] | 1,) + h[3:], gen_rsp_body(rng, 2), 'attrs', False))
+    for h in out_of_range_headers(rng, max(8, n_req // 6)):
+        cases.append((h, gen_rsp_body(rng, 2), 'attrs', False))
+    models = drv.ask_many(['rspframe s %s %s' % (hs(r), lean.hexs(b)) for r, b, _, _ in cases])
+    specs = drv.ask_many(['mkreply %s %s' % (hs(r), lean.hexs(b)) for r, b, _, _ in cases])
+    for (req, body, via, inq), m, sp in zip(cases, models, specs):
+        ctx.case(('response', req, body, via), nontrivial=len(body) > 1)
+        ctx.count('response:%s' % (('request-header-' + via) if inq else 'outside-quantifier'))
+        ctx.count('response-body-len:%s' % ('1' if len(body) == 1 else '2-17' if len(body) <= 17 else '18-65'))
+        judge_response(ctx, drv, req, body, via, m, sp, inq)
+    ctx.sample({'op': 'response', 'req': list(cases[0][0]), 'body': lean.hexs(cases[0][1]), 'model': models[0],
+                'figure': specs[0]})
+    # ONE IpmbHeaderRsp object answers several requests in a row
+    from pyipmi.interfaces.ipmb import IpmbHeaderRsp
+    obj, seq = IpmbHeaderRsp(), []
+    for n, req in enumerate(reqs[:200]):
+        if n % 8 == 0:
+            obj, seq = IpmbHeaderRsp(), []
+        body = gen_rsp_body(rng, rng.randrange(0, 6))
+        seq.append([list(req), lean.hexs(body)])
+        got, want = real_response(req, body, rsp_obj=obj), real_response(req, body)
+        ctx.case(('response-seq', tuple(map(repr, seq))), nontrivial=len(seq) > 1)
+        ctx.count('response:reused-header-object')
+        if got != want:
+            ctx.violate('C03:response-frame:reused-header-object',
+                        'an IpmbHeaderRsp object that answered other requests before does not answer like a fresh one',
+                        {'op': 'response-history', 'seq': list(seq)}, expected=want, observed=got)
+    # response header objects filled in by hand
+    hdrs = [h[:2] + (h[2] | 1,) + h[3:] for h in gen_headers(rng, max(20, n_req // 3))]
+    hcases = [(h, gen_rsp_body(rng), True) for h in hdrs]
+    hcases += [(h, gen_rsp_body(rng, 1), False) for h in out_of_range_headers(rng, max(8, n_req // 8))]
+    m_hdr = drv.ask_many(['rsphdr ' + hs(h) for h, _, _ in hcases])
+    m_enc = drv.ask_many(['rspenc %s %s' % (hs(h), lean.hexs(b)) for h, b, _ in hcases])
+    figs = drv.ask_many(['mkreply %s %s' % (hs(h[:2] + (max(h[2], 1) - 1,) + h[3:]), lean.hexs(b)) for h, b, _ in hcases])
+    for (h, b, inr), mh, me, fg in zip(hcases, m_hdr, m_enc, figs):
+        ctx.case(('rsp-encode', h, b), nontrivial=len(b) > 1)
+        ctx.count('response:header-object-by-hand:%s' % ('in-range' if inr else 'out-of-range'))
+        judge_rsp_encode(ctx, drv, h, b, mh, me, fg if inr else None)
+    # through the library's BMC emulation
+    try:
+        _emulation()
+    except Exception as e:  # noqa
+        ctx.notes.append('pyipmi.emulation cannot be imported (%s: %s): emulation stream skipped' % (type(e).__name__, e))
+        return
+    for i in range(n_emulation):
+        req = (rng.choice((0x20, 0x20, 0x82, rng.randrange(256))), rng.randrange(4), 6, rng.choice((0x81, 0x20, rng.randrange(256))),
+               rng.randrange(4), rng.choice((0, 1, 63, rng.randrange(64))), 1)
+        if i == 0:
+            req = W_REQ
+        ctx.case(('emulation', req))
+        ctx.count('response:through-emulation')
+        judge_emulation(ctx, drv, req)
+
+
+# ---------------------------------------------------------------------------------------
 # the same clause through the LAN transport
 # ---------------------------------------------------------------------------------------
 
@@ -677,6 +938,7 @@ def run(ctx):
     lens = [0, 1, 2, 7, 16, 63, 64] + ([] if quick else [255, 1024])
     _run_transmit(ctx, drv, rng, 120 if quick else 1500, lens)
     _run_encode_histories(ctx, ctx.rng('c03-encode-history'), gen_headers(ctx.rng('c03-eh'), 200 if quick else 3000))
+    _run_response(ctx, drv, ctx.rng('c03-response'), 150 if quick else 3000, 24 if quick else 400)
     _run_filter_histories(ctx, drv, ctx.rng('c03-filter-history'), 60 if quick else 1200)
     _run_transport(ctx, drv, ctx.rng('c03-transport'), 2 if quick else 60)
     _run_filter(ctx, drv, rng, n_req=40 if quick else 400, n_corrupt_frames=24 if quick else 400,
@@ -694,6 +956,8 @@ def search(ctx):
         return
     rng = ctx.rng('c03-search')
     _run_transmit(ctx, drv, rng, 400, [0, 1, 2, 3, 7, 8, 16, 63, 64, 255])
+    if not ctx.violations:
+        _run_response(ctx, drv, rng, 600, 60)
     if not ctx.violations:
         _run_transport(ctx, drv, rng, 12)
     if not ctx.violations:
@@ -738,6 +1002,47 @@ def replay(ctx, v):
             print('  %s %s: used object %s, fresh object %s' % (dict(zip(FIELDS, h)), dx, got[1], want[1]))
             bad = got != want
         return bad
+    elif case['op'] == 'response':
+        req, body = tuple(case['req']), lean.unhex(case['body'])
+        req_frame = lean.unhex(case['req_frame']) if case.get('via') == 'decode' else None
+        print('request header %s%s' % (dict(zip(FIELDS, req)), '' if req_frame is None else
+                                       '  = IpmbHeaderReq(data=%s)' % case['req_frame']))
+        print('IpmbHeaderRsp().from_req_header(request header); encode_ipmb_msg(response header, %s)' % case['body'])
+        real = real_response(req, body, req_frame)
+        print('  code   : %s' % real)
+        print('  figure : %s   (rqSA, (netFn+1)/rqLUN, chk1, rsSA, rqSeq/rsLUN, cmd, body, chk2)' % drv.ask(
+            'mkreply %s %s' % (hs(req), lean.hexs(body))))
+        if real.startswith('ok '):
+            print('  the requester reads: %s ; rx_filter(request header, frame) -> %s' % (
+                drv.ask('parsersp ' + real[3:]), real_filter(req, DEFAULT_FLAGS, lean.unhex(real[3:]))))
+        judge_response_frame(c2, drv, case, req, body, real)
+    elif case['op'] == 'rsp-encode':
+        vals, body = tuple(case['hdr']), lean.unhex(case['body'])
+        r_hdr, r_enc = real_rsp_encode(vals, body)
+        req = vals[:2] + (vals[2] - 1,) + vals[3:]
+        fig = drv.ask('mkreply %s %s' % (hs(req), lean.hexs(body)))
+        print('IpmbHeaderRsp with %s: encode() -> %s ; encode_ipmb_msg(header, %s) -> %s' % (
+            dict(zip(FIELDS, vals)), r_hdr, case['body'], r_enc))
+        print('  figure : %s' % fig)
+        judge_rsp_encode(c2, drv, vals, body, None, None, fig)
+    elif case['op'] == 'response-history':
+        from pyipmi.interfaces.ipmb import IpmbHeaderRsp
+        obj, bad = IpmbHeaderRsp(), False
+        print('one IpmbHeaderRsp object answers these requests in a row:')
+        for h, bx in case['seq']:
+            got, want = real_response(tuple(h), lean.unhex(bx), rsp_obj=obj), real_response(tuple(h), lean.unhex(bx))
+            print('  %s %s: used object %s, fresh object %s' % (dict(zip(FIELDS, h)), bx, got, want))
+            bad = got != want
+        return bad
+    elif case['op'] == 'emulation':
+        req = tuple(case['req'])
+        print('pyipmi.emulation.handle_rmcp_ipmi_msg <- Get Device ID request %s (%s)' % (case['req_frame'], dict(zip(FIELDS, req))))
+        real = real_emulation(lean.unhex(case['req_frame']))
+        print('  transmits : %s' % real)
+        if real.startswith('ok ') and len(real) >= 19:
+            body = lean.unhex(real[3:])[6:-1]
+            print('  figure    : %s' % drv.ask('mkreply %s %s' % (hs(req), lean.hexs(body))))
+        judge_emulation(c2, drv, req)
     elif case['op'] == 'transport':
         tc, frame, intact = case['tc'], lean.unhex(case['frame']), lean.unhex(case['intact'])
         inner_req, _ = transport_frame(drv, tc, b'\x00')
